@@ -504,6 +504,9 @@ class ExcelInPython:
         
         
     def _left(self, text, num_chars):
+        if isinstance(text, self.EmptyCell):
+            # a cell that holds nothing is the empty text
+            text = ''
         if num_chars is None:
             return text[0:1]
         if num_chars < 0:
@@ -516,6 +519,9 @@ class ExcelInPython:
         return text[0:num_chars]
 
     def _mid(self, text, start_num, num_chars):
+        if isinstance(text, self.EmptyCell):
+            # a cell that holds nothing is the empty text
+            text = ''
         if start_num < 1:
             return '#NUM!'
         if num_chars < 0:
@@ -572,6 +578,9 @@ class ExcelInPython:
         return col_value
     
     def _right(self, text, num_chars):
+        if isinstance(text, self.EmptyCell):
+            # a cell that holds nothing is the empty text
+            text = ''
         if num_chars is None:
             return text[len(text) - 1:]
         if num_chars < 0:
